@@ -12,6 +12,8 @@ use crate::est::hex;
 pub trait HistT: Sized + Clone {
     const LEN: usize;
     fn h_from_ranges(v: Vec<f64>) -> Result<Self, String>;
+    /// from_ranges fed through `filter` (size_hint lower bound 0, no exact length)
+    fn h_from_ranges_filtered(v: Vec<f64>) -> Result<Self, String>;
     /// from_ranges fed by an UNBOUNDED iterator (the given values followed by +inf forever); returns the
     /// result and how many items were polled.  The iterator panics after `limit` polls (a runaway reader).
     fn h_from_ranges_unbounded(v: Vec<f64>, limit: usize) -> (Result<Self, String>, usize);
@@ -24,6 +26,8 @@ pub trait HistT: Sized + Clone {
     fn h_range_max(&self) -> f64;
     fn h_items(&self) -> Vec<((f64, f64), u64)>;
     fn h_items_into_iter(&self) -> Vec<((f64, f64), u64)>;
+    /// items reached through Iterator::nth / skip / step_by rather than plain next(): (after nth(1), skip(2), step_by(2))
+    fn h_items_jump(&self) -> Vec<((f64, f64), u64)>;
     fn h_widths(&self) -> Vec<f64>;
     fn h_centers(&self) -> Vec<f64>;
     fn h_normalized(&self) -> Vec<f64>;
@@ -44,6 +48,17 @@ macro_rules! hist_common {
         const LEN: usize = $len;
         fn h_from_ranges(v: Vec<f64>) -> Result<Self, String> {
             Self::from_ranges(v.into_iter()).map_err(|e| {
+                use $err as E;
+                match e {
+                    E::NotEnoughRanges => "NotEnoughRanges".to_string(),
+                    E::NotSorted => "NotSorted".to_string(),
+                    E::NaN => "NaN".to_string(),
+                }
+            })
+        }
+        fn h_from_ranges_filtered(v: Vec<f64>) -> Result<Self, String> {
+            let it = v.into_iter().filter(|x| std::hint::black_box(*x == *x || *x != *x));
+            Self::from_ranges(it).map_err(|e| {
                 use $err as E;
                 match e {
                     E::NotEnoughRanges => "NotEnoughRanges".to_string(),
@@ -100,6 +115,21 @@ macro_rules! hist_common {
             for it in self {
                 v.push(it);
             }
+            v
+        }
+        fn h_items_jump(&self) -> Vec<((f64, f64), u64)> {
+            // separator items ((NaN, NaN), u64::MAX) between the three walks
+            let sep = ((f64::NAN, f64::NAN), u64::MAX);
+            let mut v = vec![];
+            let mut it = self.iter();
+            if let Some(x) = it.nth(1) {
+                v.push(x);
+            }
+            v.extend(it);
+            v.push(sep);
+            v.extend(self.iter().skip(2));
+            v.push(sep);
+            v.extend(self.into_iter().step_by(2));
             v
         }
         fn h_widths(&self) -> Vec<f64> {
@@ -264,6 +294,7 @@ pub fn observe<H: HistT>(h: &H, s: &mut String) {
     };
     put(s, "items", || h.h_items(), items);
     put(s, "items2", || h.h_items_into_iter(), items);
+    put(s, "items_jump", || h.h_items_jump(), items);
     put(s, "widths", || h.h_widths(), |v| join_f(&v));
     put(s, "centers", || h.h_centers(), |v| join_f(&v));
     put(s, "normalized", || h.h_normalized(), |v| join_f(&v));
